@@ -558,6 +558,11 @@ class Hang(Exception):
     pass
 
 
+class HarnessMismatch(Exception):
+    """The tracing harness does not fit the code under test (renamed seam, work item it cannot
+    map): a machinery failure, never a verdict about the property."""
+
+
 class Net:
     """Deterministic network: responses are released one at a time, only when the loop is idle."""
 
@@ -800,37 +805,53 @@ def run_case(case, outdir, log_trace=True):
             tr.op("wredir", sorted([k, v] for k, v in redirects.items()))
             return super().write_redirects(redirects)
 
+    def host_of(api):
+        return "shared" if str(getattr(api, "apiurl", "")).startswith(SHARED_HOST) else "local"
+
+    def generic(v):
+        if isinstance(v, bool):
+            return ["b", v]
+        if isinstance(v, (str, int)):
+            return ["s", str(v)]
+        if isinstance(v, (list, tuple, set, frozenset)):
+            return ["l", [str(x) for x in v]]
+        if isinstance(v, sapi.MwApi):
+            return ["api", host_of(v)]
+        return ["o", repr(v)[:60]]
+
     def argrepr(fun, args, kw):
-        n = fun.__name__
-        if n in ("fetch_html", "fetch_used", "fetch_used_block"):
-            return n, [args[0], [str(x) for x in args[1]]]
-        if n == "fetch":
-            return "html1", [str(args[0])]
-        if n in ("expand_templates_from_title",):
-            return n, [args[0]]
-        if n == "expand_templates_from_revid":
-            return n, [str(args[0])]
-        if n == "fetch_imageinfo":
-            return n, [list(args[0])]
-        if n == "_download_image":
-            return n, [args[1]]
-        if n == "handle_new_basepath":
-            return n, [args[0]]
-        if n == "fetch_image_page":
-            return n, [list(args[0]), "shared" if str(args[1].apiurl).startswith(SHARED_HOST) else "local"]
-        if n == "get_image_edits":
-            return n, [args[0], "shared" if str(args[1].apiurl).startswith(SHARED_HOST) else "local"]
-        if n == "get_edits":
-            return n, [str(a) for a in args]
-        if n == "_fetch_pages":
-            return n, [sorted((k, [str(x) for x in v]) for k, v in kw.items())]
-        return n, [repr(args)[:80]]
+        """A work item is described by its arguments only (by type, not by method name); what KIND
+        of item it is, is inferred afterwards from what it does (to_trace / infer_kinds)."""
+        return fun.__name__, [generic(x) for x in args] + [["kw", k] + generic(v) for k, v in sorted(kw.items())]
+
+    # the seams this harness hooks must exist; a missing one is a mismatch between harness and code
+    # (machinery failure), never a verdict
+    for obj, names in ((fetch, ("Fetcher", "FsOutput", "download_to_file", "_get_download_client", "Semaphore")),
+                       (fetch.Fetcher, ("_refcall_noinc", "dispatch", "finish")),
+                       (fetch.FsOutput, ("write_expanded_page", "write_pages", "set_db_key", "write_redirects")),
+                       (sapi, ("MwApi", "Semaphore")), (sapi.MwApi, ("_fetch", "set_limit", "do_request")),
+                       (mn, ("make_nuwiki", "mwapi", "fetch"))):
+        for n in names:
+            if not hasattr(obj, n):
+                raise HarnessMismatch("the seam %s.%s the tracing harness hooks does not exist" % (getattr(obj, "__name__", obj), n))
 
     class TraceFetcher(fetch.Fetcher):
         def __init__(self, *a, **k):
             tr.fetcher = None
             self._tracing_ready = False
             super().__init__(*a, **k)
+            for n in ("scheduled", "imageinfo_todo", "revids_todo", "pages_todo", "imagedescription_todo", "redirects",
+                      "api", "api_cache", "api_semaphore", "dispatch_event", "image_download_pool"):
+                if not hasattr(self, n):
+                    raise HarnessMismatch("Fetcher has no attribute %r the tracing harness projects" % n)
+            pool_spawn = self.image_download_pool.spawn
+
+            def spawn_download(fn, *fa, **fk):
+                url = next((x for x in fa if isinstance(x, str)), "")
+                title = next((t for t, img in sw.images.items() if sw.thumb_url(img) == url), url)
+                tr.op("spawnget", title)
+                return pool_spawn(fn, *fa, **fk)
+            self.image_download_pool.spawn = spawn_download
             tr.fetcher = self
             tr.main_event("init")
 
@@ -1020,10 +1041,69 @@ def read_back(case, outdir, sw=None):
 
 
 # ----------------------------------------------------------------------------------- trace for TLC
-KIND = {"fetch_html": "FH", "html1": "H1", "fetch_used": "FU", "fetch_used_block": "UB",
+# method names of today's code, used ONLY to cross-check the behavioural inference below
+KIND = {"fetch_html": "FH", "fetch": "H1", "fetch_used": "FU", "fetch_used_block": "UB",
         "expand_templates_from_title": "ET", "expand_templates_from_revid": "ER",
         "fetch_imageinfo": "II", "_download_image": "DL", "download": "GET",
         "handle_new_basepath": "NB", "fetch_image_page": "IP", "get_image_edits": "IE"}
+FIRST_REQUEST = {"parse": "H1", "used": "UB", "expand": "ET", "revcontent": "ER", "imageinfo": "II",
+                 "descrev": "IP", "siteinfo": "NB"}
+
+
+def infer_kinds(result):
+    """item id -> kind of work item in Fetcher.tla's vocabulary, from what the item DID: the first
+    request it issued; for items that issue none, what they spawned; for items that did nothing
+    at all, the shape of their arguments.  Raises HarnessMismatch for an item it cannot map."""
+    ops, meta = {}, {}
+    for e in result["events"]:
+        ops.setdefault(e["id"], []).extend(e["ops"])
+        for o in e["ops"]:
+            if o[0] == "spawn":
+                meta[o[1]] = (o[2], o[3], e["id"])
+    children = {}
+    for iid, (_n, _g, parent) in meta.items():
+        children.setdefault(parent, []).append(iid)
+    kinds = {}
+
+    def kind(iid):
+        if iid in kinds:
+            return kinds[iid]
+        name, gen, _parent = meta[iid]
+        my = ops.get(iid, [])
+        strs = [g[1] for g in gen if g[0] == "s"]
+        apis = [g[1] for g in gen if g[0] == "api"]
+        req = next((o for o in my if o[0] == "req"), None)
+        k = None
+        if req is not None:
+            what = req[2][0]
+            if what == "contributors":
+                k = "IE" if apis else None        # ET / ER end with contributors, only IE starts with it
+            else:
+                k = FIRST_REQUEST.get(what)
+        elif any(o[0] == "spawnget" for o in my):
+            k = "DL"
+        else:
+            kid = {kind(c) for c in children.get(iid, [])}
+            if kid == {"H1"}:
+                k = "FH"
+            elif kid == {"UB"}:
+                k = "FU"
+            elif not kid and strs and strs[0] in ("page", "oldid"):
+                k = "FH"                            # fetch_html of an empty list
+            elif not kid and strs and strs[0] in ("titles", "revids"):
+                k = "FU"                            # fetch_used of an empty list
+            elif not kid and len(gen) == 1 and strs and strs[0].startswith("http"):
+                k = "NB"                            # nothing new under that base path
+        if k is None:
+            raise HarnessMismatch("cannot map work item %s%r (first request %r, spawned %r) to a kind of Fetcher.tla"
+                                  % (name, gen, req[2] if req else None, sorted(kinds.get(c, "?") for c in children.get(iid, []))))
+        if name in KIND and KIND[name] != k:
+            raise HarnessMismatch("work item %s%r behaves like %s, its method name says %s" % (name, gen, k, KIND[name]))
+        kinds[iid] = k
+        return k
+    for iid in sorted(meta):
+        kind(iid)
+    return kinds, ops
 
 
 def wiki_for_tla(wiki):
@@ -1058,29 +1138,38 @@ def to_trace(case, result):
         return "?" + repo_title
 
     names = {}                 # item id -> (k, a, h)
-    html_parent = {}
+    kinds, allops = infer_kinds(result)
 
-    def item(iid, kind, arg, parent=None):
-        k = KIND.get(kind, kind)
+    def item(iid, name, gen, parent=None):
+        k = kinds[iid]
+        strs = [g[1] for g in gen if g[0] == "s"]
+        lists = [g[1] for g in gen if g[0] == "l"]
+        apis = [g[1] for g in gen if g[0] == "api"]
+
+        def need(seq, what):
+            if not seq:
+                raise HarnessMismatch("work item %s%r (%s) has no %s argument" % (name, gen, k, what))
+            return seq[0]
         if k in ("FH", "FU", "UB"):
-            a, h = [arg[0]] + list(arg[1]), "local"
+            a, h = [need(strs, "name")] + list(need(lists, "list")), "local"
         elif k == "H1":
-            pname = names[parent][1][0] if parent in names else "?"
-            a, h = [pname, arg[0]], "local"
+            req = next(o for o in allops[iid] if o[0] == "req")
+            a, h = [req[2][1], str(req[2][2])], "local"
         elif k in ("ET", "ER"):
-            a, h = [arg[0]], "local"
+            a, h = [need(strs, "title/revid")], "local"
         elif k == "II":
-            a, h = list(arg[0]), "local"
-        elif k in ("DL", "GET"):
-            a, h = [arg[0]], ""
+            a, h = list(need(lists, "titles")), "local"
+        elif k == "DL":
+            got = [o[1] for o in allops.get(iid, []) if o[0] == "spawnget"]
+            a, h = [got[0] if got else need(strs[::-1], "title")], ""
         elif k == "NB":
-            a, h = [], ("shared" if arg[0].startswith(SHARED_HOST) else "local")
+            a, h = [], ("shared" if need(strs, "path").startswith(SHARED_HOST) else "local")
         elif k == "IP":
-            a, h = [local_title(t, arg[1]) for t in arg[0]], arg[1]
-        elif k == "IE":
-            a, h = [local_title(arg[0], arg[1])], arg[1]
-        else:
-            a, h = [str(x) for x in arg], "?"
+            h = need(apis, "api")
+            a = [local_title(t, h) for t in need(lists, "titles")]
+        else:   # IE
+            h = need(apis, "api")
+            a = [local_title(need(strs, "title"), h)]
         names[iid] = (k, a, h)
         return [k, a, h]
 
@@ -1094,6 +1183,8 @@ def to_trace(case, result):
                 sp.append(item(o[1], o[2], o[3], parent=e["id"]))
                 if sp[-1][0] == "IP":
                     bl.append(sp[-1][1])
+            elif o[0] == "spawnget":
+                sp.append(["GET", [o[1]], ""])
             elif o[0] == "wexp":
                 w.append("p:%s@%s" % (o[1], o[2]) if o[2] else "p:%s" % o[1])
             elif o[0] == "wpages":
@@ -1123,7 +1214,7 @@ def to_trace(case, result):
         elif e["kind"] == "dispatcher":
             k, a, h = "D", [], ""
         else:
-            k, a, h = e["kind"], [str(x) for x in e["arg"]], "?"
+            raise HarnessMismatch("event of an unknown greenlet: %r" % (e,))
         if k == "D":
             if e["wait"] == "done" and not e["ops"]:
                 continue                       # the dispatcher greenlet being killed by run()
@@ -1133,8 +1224,6 @@ def to_trace(case, result):
             to = {"net": "r", "hsem": "whsem", "done": "done", "other": "join"}.get(e["wait"], e["wait"])
             if to.startswith("sem:"):
                 to = "wsem"
-        if k == "DL":
-            sp.append(["GET", a, ""])
         todo = list(st.get("todoImg", []))
         ord_ = todo[len(prev_todo):] if len(todo) >= len(prev_todo) and todo[:len(prev_todo)] == prev_todo else []
         prev_todo = todo
